@@ -305,6 +305,9 @@ def r4_r5_shuffle(ctx):
                     want = sp.fn("abs", sp.sym("train_points") / sp.sym("test_points") - sp.sym("train_blocks") / sp.sym("test_blocks"))
                     alt = sp.fn("abs", sp.sym("train_blocks") / sp.sym("test_blocks") - sp.sym("train_points") / sp.sym("test_points"))
                     okf = True if got == want or got == alt else compare(sp, got, want)
+                    inner = sp.sym("train_points") / sp.sym("test_points") - sp.sym("train_blocks") / sp.sym("test_blocks")
+                    if okf is None and (got == inner or got == -inner):
+                        okf = False       # the signed difference: argmin then prefers the most negative imbalance instead of the smallest one
                 except Undecided:
                     okf, got = None, "?"
                 ctx.check("R5", qn + "|balance-formula", okf, "balance = |train_points/test_points - train_blocks/test_blocks|", bad="balance is %s" % repr(got)[:120], fn=qn)
